@@ -336,12 +336,12 @@ theorem add_follow {now : Int} {D : List Nat} {s t : State} (h : Follow now D s 
     split; · trivial
     exact ⟨rfl, h.last, rfl, look_setGauge h.look _, h.dfin, h.tfin, h.act, h.ids, h.wft⟩
 
-theorem epoch_none_of_activate {s : State} {now : Int} {thr : Thr} {locks : List Lock}
+theorem epoch_none_of_activate {s : State} {now : Int} {thr : Quotes} {locks : List Lock}
     (h : activate now s.upcoming s.active = none) : epoch s now thr locks = none := by
   unfold epoch; rw [h]
 
 theorem epoch_follow {now : Int} {D : List Nat} {s t : State} (hi : Inv s) (hws : WFInv s) (h : Follow now D s t)
-    (now' : Int) (hle : now ≤ now') (thr : Thr) (locks : List Lock) :
+    (now' : Int) (hle : now ≤ now') (thr : Quotes) (locks : List Lock) :
     OR (fun (p q : State × Info) => Follow now D p.1 q.1 ∧ p.2 = q.2) (epoch s now' thr locks) (epoch t now' thr locks) := by
   have hact := h.act now' hle
   cases ha : activate now' s.upcoming s.active with
